@@ -18,7 +18,7 @@ from ..worlds import relay, store
 ID = "C05"
 LEVEL = "exploration"
 CHUNK = 40
-BUDGET = {"quick": {"runs": 2500, "wall": 150}, "thorough": {"runs": 100000, "wall": 1200}}
+BUDGET = {"quick": {"runs": 4000, "wall": 150}, "thorough": {"runs": 100000, "wall": 1200}}
 RULE = ("2-5 connections x scripts of 2-12 frames over REQ (1-3 well-formed filters aimed at the event "
         "pool, fresh and reused ids), CLOSE, EVENT (distinct pool events incl. replaceable, ephemeral, "
         "deletions), barrier, disconnect; slow consumers; both back ends; every interleaving decision "
@@ -96,8 +96,29 @@ def gen(rng, knobs):
             script.insert(rng.randint(1, len(script)), ["disconnect"])
         clients.append({"script": script, "slow": rng.random() < 0.2})
     pre = [h.regular() for _ in range(rng.randint(0, 4))]
+    if rng.random() < 0.2:
+        # replacement in flight: a slow reader replaces its subscription while the first stored query is still
+        # running (well-filled store), and matching events are accepted right then; whatever winds down for the
+        # replaced subscription must not touch what is queued for its successor
+        pre = [h.regular(kind=1) for _ in range(rng.randint(6, 14))]
+        authors = [k.pub for k in evgen.AUTHORS[:3]]
+        f1 = rng.choice([{"kinds": [1]}, {"authors": authors}, {"kinds": [1, 7]}])
+        f2 = rng.choice([{"kinds": [1]}, {"authors": authors}, {"kinds": [1], "since": histgen.T0 - 100000}])
+        news = [h.regular(kind=1) for _ in range(rng.randint(1, 4))]
+        first = [["send", json.dumps(["REQ", "x", f1])], ["send", json.dumps(["REQ", "x", f2])]]
+        if rng.random() < 0.3:
+            first.insert(1, ["send", json.dumps(["CLOSE", "x"])])
+        clients = [{"script": first, "slow": rng.random() < 0.8},
+                   {"script": [["send", json.dumps(["EVENT", e])] for e in news], "slow": False}]
+        if rng.random() < 0.5:
+            clients.append({"script": [["send", json.dumps(["REQ", "c", f2])]], "slow": False})
+    stall = {}
+    if rng.random() < (0.7 if len(pre) >= 6 else 0.15):
+        # one residue class of SQL connections is stalled (slow disk / busy worker thread)
+        m = rng.choice([2, 3, 3, 4])
+        stall = {"stall_mod": m, "stall_rem": rng.choice([0, 0, rng.randrange(m)]), "stall_scale": rng.choice([0.02, 0.1])}
     return {"backend": backend, "clients": clients, "preload": pre, "p_buffered": rng.choice([0.0, 0.0, 0.3, 0.8]),
-            "sched": {"client": rng.choice([0.3, 1.0, 3.0]), "sql": rng.choice([0.2, 1.0, 3.0]),
+            "sched": {**stall, "client": rng.choice([0.3, 1.0, 3.0]), "sql": rng.choice([0.2, 1.0, 3.0]),
                       "exec": rng.choice([0.1, 1.0, 3.0]), "writer": rng.choice([0.1, 1.0, 3.0]),
                       "pool": rng.choice([0.2, 1.0, 3.0]), "wsend": rng.choice([0.2, 1.0]),
                       "ready": rng.choice([1.0, 4.0, 8.0]), "timer_near": 0.2}}
